@@ -100,6 +100,17 @@ func (l *Client) getMaxHtlcAmtMsat(chanId uint64, pubkey string) (uint64, error)
 	return maxHtlcAmtMsat, nil
 }
 
+// aboveReserveMsat returns the part of a channel balance that is not held back
+// by the channel reserve. A side that holds less than its reserve (the remote
+// side of every channel we funded alone, to begin with) can send nothing: the
+// unsigned subtraction must not wrap around to a huge amount.
+func aboveReserveMsat(balanceSat int64, reserveSat uint64) uint64 {
+	if balanceSat <= 0 || uint64(balanceSat) <= reserveSat {
+		return 0
+	}
+	return (uint64(balanceSat) - reserveSat) * 1000
+}
+
 // SpendableMsat returns an estimate of the total we could send through the
 // channel with given scid.
 func (l *Client) SpendableMsat(scid string) (uint64, error) {
@@ -123,8 +134,8 @@ func (l *Client) SpendableMsat(scid string) (uint64, error) {
 			if err != nil {
 				return 0, err
 			}
-			spendable := (uint64(ch.GetLocalBalance()) -
-				ch.GetLocalConstraints().GetChanReserveSat()) * 1000
+			spendable := aboveReserveMsat(ch.GetLocalBalance(),
+				ch.GetLocalConstraints().GetChanReserveSat())
 			// since the max htlc limit is not always set reliably,
 			// the check is skipped if it is not set.
 			if maxHtlcAmtMsat == 0 {
@@ -160,8 +171,8 @@ func (l *Client) ReceivableMsat(scid string) (uint64, error) {
 			if err != nil {
 				return 0, err
 			}
-			receivable := (uint64(ch.GetRemoteBalance()) -
-				ch.GetRemoteConstraints().GetChanReserveSat()) * 1000
+			receivable := aboveReserveMsat(ch.GetRemoteBalance(),
+				ch.GetRemoteConstraints().GetChanReserveSat())
 			// since the max htlc limit is not always set reliably,
 			// the check is skipped if it is not set.
 			if maxHtlcAmtMsat == 0 {
